@@ -60,6 +60,10 @@ func (m *Manager) DataSubmissionLoop(ctx context.Context) {
 			continue
 		}
 		if len(signedDataToSubmit) == 0 {
+			// only empty blocks are pending: there is nothing to publish for them, so they must
+			// not count as awaiting DA submission (an idle chain would otherwise hit the
+			// pending limit and stop producing blocks for good)
+			m.skipPendingEmptyData(ctx)
 			continue
 		}
 
@@ -225,6 +229,21 @@ func (m *Manager) submitDataToDA(ctx context.Context, signedDataToSubmit []*type
 		},
 		"data",
 	)
+}
+
+// skipPendingEmptyData advances the data submission watermark over pending blocks that carry no
+// transactions. It does nothing if any pending block has transactions.
+func (m *Manager) skipPendingEmptyData(ctx context.Context) {
+	dataList, err := m.pendingData.getPendingData(ctx)
+	if err != nil || len(dataList) == 0 {
+		return
+	}
+	for _, data := range dataList {
+		if len(data.Txs) != 0 || data.Metadata == nil {
+			return
+		}
+	}
+	m.pendingData.setLastSubmittedDataHeight(ctx, dataList[len(dataList)-1].Height())
 }
 
 // createSignedDataToSubmit converts the list of pending data to a list of SignedData.
